@@ -98,6 +98,7 @@ impl Batch {
             }
         }
         self.runs += 1;
+        crate::PROGRESS.fetch_add(1, std::sync::atomic::Ordering::SeqCst);
         self.events += evs.len() as u64;
         h
     }
